@@ -9,6 +9,6 @@ git -C /repo worktree add --detach "$wt" HEAD >/dev/null 2>&1 || exit 2
 ( cd "$wt" && (git apply --3way "$patch" 2>/dev/null || git apply "$patch") ) || { echo "patch does not apply"; git -C /repo worktree remove --force "$wt"; exit 2; }
 ( cd /verif && VERIF_REPO="$wt" VERIF_NO_EVIDENCE=1 bin/check "$id" --tier "$tier" ); rc=$?
 git -C /repo worktree remove --force "$wt"; git -C /repo worktree prune
-rm -rf /verif/out/mod-* 2>/dev/null
+
 echo "try-seed: $id $patch -> exit $rc"
 exit $rc
